@@ -19,7 +19,7 @@ from .C15 import defgrad
 PROP = "C20"
 
 EVIDENCE = {
-    "probes_expected": ["frames-compared", "early-stop-file-read-back", "roundtrip-compared", "save-compared", "merged-container-read", "custom-data-compared", "fault:h5_create_fail", "fault:disk_full", "second-job-compared"],
+    "probes_expected": ["frames-compared", "early-stop-file-read-back", "roundtrip-compared", "save-compared", "merged-container-read", "custom-data-compared", "fault:h5_create_fail", "fault:disk_full", "second-job-compared", "mesh-object-history"],
     "components": {
         "real": ["felupe (from /repo/src)", "numpy", "scipy incl. SuperLU", "meshio writers/readers", "h5py/HDF5 on a real scratch file"],
         "simulated": ["h5py.File proxy (fails on the n-th create_dataset / on close)", "linear solver fault layer", "job callback and data callables", "clock"],
@@ -66,6 +66,10 @@ def generate(seed, tier, k):
     if kind == "container":
         doc["c20"]["second"] = r.choice(["same-shifted", "same-touching", "other-type"])
         doc["c20"]["decimals"] = r.choice([None, 8])
+    if kind == "roundtrip":
+        # how the mesh object came about before it is written, and through which name
+        doc["c20"]["mesh_history"] = r.choice([None, None, "copy", "copy-points", "copy-then-update", "update", "copy-cells"])
+        doc["c20"]["writer"] = r.choice(["write", "write", "save"])
     if kind in ("roundtrip", "save") and r.random() < 0.3:
         doc["c20"]["disk_full_at"] = r.choice([0, 1, 17, 100, 400, 1000, 3000, 10000])
     if kind == "save":
@@ -394,7 +398,16 @@ def run_job(doc, log):
         d2["faults"] = []
         w2 = world.World(d2)
         job2 = fem.Job(steps=w2.steps)
-        job2.evaluate(filename="second.xdmf", verbose=False)
+        try:
+            job2.evaluate(filename="second.xdmf", verbose=False)
+        except ValueError as e2:
+            from ..kernel import Unexpected, newton_failure
+
+            if not newton_failure(e2):
+                raise Unexpected(e2, "second-job") from e2
+            # the fault-free history itself does not converge: nothing to compare
+            log.count("second-job-did-not-converge")
+            return eng, exc, complete
         with meshio.xdmf.TimeSeriesReader("second.xdmf") as reader:
             reader.read_points_cells()
             n2 = reader.num_steps
@@ -413,13 +426,34 @@ def run_job(doc, log):
 # ----------------------------------------------------------------------------------------
 def run_roundtrip(doc, log):
     m = world.build_mesh(doc["mesh"])
+    hist = doc["c20"].get("mesh_history")
+    if hist:
+        m0 = m
+        keep0 = (m0.points.copy(), m0.cells.copy())
+        newp = m0.points * 1.25 + 0.125
+        newc = m0.cells[::-1].copy()
+        if hist == "copy":
+            m = m0.copy()
+        elif hist == "copy-points":
+            m = m0.copy(points=newp)
+        elif hist == "copy-cells":
+            m = m0.copy(cells=newc)
+        elif hist == "copy-then-update":
+            m = m0.copy()
+            m.update(points=newp)
+        else:
+            m.update(points=newp)
+        if m is not m0 and not (np.array_equal(m0.points, keep0[0]) and np.array_equal(m0.cells, keep0[1])):
+            raise Violation(PROP, "round-trip", f"Mesh.copy / update of the copy ({hist}) changed the original mesh", site="Mesh.copy")
+        log.count("mesh-object-history")
     fmt = doc["c20"]["format"]
     name = f"mesh.{fmt}"
+    m_write = getattr(m, doc["c20"].get("writer", "write"))  # `save` is the documented alias of `write`
     full = doc["c20"].get("disk_full_at")
     if full is not None and fmt in ("vtk", "vtu"):
         with DiskFull(full, log) as dsk:
             try:
-                m.write(name)
+                m_write(name)
                 raised = None
             except KeyError:
                 raise Discard("format-unsupported")
@@ -433,7 +467,7 @@ def run_roundtrip(doc, log):
             raise raised
     else:
         try:
-            m.write(name)
+            m_write(name)
         except KeyError as e:
             raise Discard("format-unsupported")
     back = fem.mesh.read(name, dim=m.dim)
